@@ -188,6 +188,10 @@ theorem err_null (d : Option Data) (T : Option Table) (h : d = none ∨ T = none
   · rfl
   · cases d <;> rfl
 
+/-- `!data->nlri` (repaired argument check) -/
+theorem err_null_nlri (d : Option Data) (T : Option Table) :
+    validateEntry hash verify m stop d true T = .invalidArguments := rfl
+
 /-- `!data->path || !data->sigs` -/
 theorem err_arguments (d : Data) (T : Table) (h : d.path = [] ∨ d.sigs = []) :
     validate hash verify m stop d T = .invalidArguments := by
